@@ -18,6 +18,7 @@ static std::vector<AssignLine> line_pool() {
   v.push_back(L("+joe=:eq:520:521:/home/eq:=:e:", true, "joe=", "eq", 520, 521, "/home/eq", "=", "e"));                            // a second break character
   v.push_back(L("+JO:big:530:531:/home/big:-:J:", true, "JO", "big", 530, 531, "/home/big", "-", "J"));                             // mixed-case wildcard
   v.push_back(L("+joe-:dup:540:541:/home/dup:-:d:", true, "joe-", "dup", 540, 541, "/home/dup", "-", "d"));                          // duplicate wildcard key
+  v.push_back(L("=wrap:wrapu:4294967296:100:/home/wrap:::", false, "wrap", "wrapu", 0, 100, "/home/wrap", "", ""));   // a uid that is 0 modulo 2^32: whatever it is taken for, the delivery must not run as root
   AssignLine bad{"=broken:nocolons", false, "", "", 0, 0, "", "", "", true}; v.push_back(bad);
   return v;
 }
@@ -59,7 +60,7 @@ struct C11 : Scenario {
       write_assign(w); run_newu(w);
     }
     locals = {"joe.shmoe", "JOE.Shmoe", "joe.shmoex", "joe", "Joe", "joe-direct", "joe-list-foo", "JOE-LIST-Bar", "joe-list", "joe=x", "joex", "jo", "Johan", "bill", "", "infoz", "INFOZ", "InfoZ", "info", "rooty", "root", "toor", "toor-x",
-              "bob", "bob-ext", "nohome", "mixed", "Mixed-Case", "n" + std::string(30, 'a'), "n" + std::string(30, 'a') + "-x", "N" + std::string(30, 'A'), "m" + std::string(31, 'b'), "m" + std::string(31, 'b') + "-y", "k" + std::string(29, 'c'), "k" + std::string(29, 'c') + "-z", "joe-sub", "joe-sub-x", "joe-", "-joe", "alias", "a.b-c", "zaz", "ZAZ", "Zaz-Ext", "zaZ-"};
+              "bob", "bob-ext", "nohome", "mixed", "Mixed-Case", "n" + std::string(30, 'a'), "n" + std::string(30, 'a') + "-x", "N" + std::string(30, 'A'), "m" + std::string(31, 'b'), "m" + std::string(31, 'b') + "-y", "k" + std::string(29, 'c'), "k" + std::string(29, 'c') + "-z", "joe-sub", "joe-sub-x", "joe-", "-joe", "alias", "a.b-c", "zaz", "ZAZ", "Zaz-Ext", "zaZ-", "wrap", "Wrap"};
   }
   void write_assign(World &w) { std::string a; for (auto &l : table) a += l.text + "\n"; a += ".\n"; w.k.put_file("/var/qmail/users/assign", a); }
   void run_newu(World &w) { std::map<int, int> fds; fds[0] = QmailEnv::nullfd(w); fds[1] = QmailEnv::sink(w); fds[2] = QmailEnv::sink(w); newupid = w.spawn("/var/qmail/bin/qmail-newu", {"qmail-newu"}, fds, 0, 0, "/"); }
